@@ -83,28 +83,42 @@ Definition allowed_disruptions (now n : Z) (b : budget) : Z * bool :=
       end
   end.
 
-(* budget.Reasons == nil || lo.Contains(budget.Reasons, reason) *)
+(* len(budget.Reasons) == 0 || lo.Contains(budget.Reasons, reason) *)
 Definition applies (r : reason) (b : budget) : bool :=
+  match b_reasons b with
+  | None => true
+  | Some [] => true
+  | Some l => existsb (reason_eqb r) l
+  end.
+
+(* The test before the fix 33199adef: budget.Reasons == nil || lo.Contains(...). An empty but
+   non-nil slice (what `reasons: []` decodes to) then applied to no reason. Kept so that the
+   defect stays stated and refuted. *)
+Definition applies_nil_only (r : reason) (b : budget) : bool :=
   match b_reasons b with
   | None => true
   | Some l => existsb (reason_eqb r) l
   end.
 
 (* NodePool.GetAllowedDisruptionsByReason: (allowedNodes, multiErr != nil) *)
-Fixpoint by_reason_from (acc : Z) (err : bool) (now n : Z) (r : reason) (bs : list budget) : Z * bool :=
+Fixpoint by_reason_from (app : reason -> budget -> bool) (acc : Z) (err : bool) (now n : Z) (r : reason) (bs : list budget) : Z * bool :=
   match bs with
   | [] => (acc, err)
   | b :: t =>
       let '(v, e) := allowed_disruptions now n b in
-      by_reason_from (if applies r b then Z.min acc v else acc) (err || e) now n r t
+      by_reason_from app (if app r b then Z.min acc v else acc) (err || e) now n r t
   end.
 
 Definition allowed_by_reason (now n : Z) (r : reason) (bs : list budget) : Z * bool :=
-  by_reason_from max_int32 false now n r bs.
+  by_reason_from applies max_int32 false now n r bs.
 
 (* NodePool.MustGetAllowedDisruptions *)
 Definition must_allowed (now n : Z) (r : reason) (bs : list budget) : Z :=
   let '(v, e) := allowed_by_reason now n r bs in if e then 0 else v.
+
+(* the same with the pre-fix applicability test *)
+Definition must_allowed_prefix (now n : Z) (r : reason) (bs : list budget) : Z :=
+  let '(v, e) := by_reason_from applies_nil_only max_int32 false now n r bs in if e then 0 else v.
 
 (* ---- BuildDisruptionBudgetMapping ---- *)
 
@@ -442,6 +456,7 @@ Arguments p_static {sid} _.
 Arguments p_replicas {sid} _.
 Arguments p_limit {sid} _.
 Arguments applies {sid} _ _.
+Arguments applies_nil_only {sid} _ _.
 Arguments find_pool {sid} _ _.
 Arguments static_drift_pool {sid} _ _ _ _.
 Arguments mkSys {sid} _ _ _ _.
